@@ -198,6 +198,21 @@ func (m *Model) Run(inputs Tensors) (Tensors, error) {
 			}
 		}
 
+		// The same holds for a tensor of the caller that an operator handed on as it is under
+		// another name: result and input of a run do not share their contents.
+		for inputName, inputTensor := range inputs {
+			if outputTensor != nil && outputTensor == inputTensor && inputName != outputName {
+				clone, ok := inputTensor.Clone().(tensor.Tensor)
+				if !ok {
+					return nil, ErrModel("could not copy input %v", inputName)
+				}
+
+				outputTensor = clone
+
+				break
+			}
+		}
+
 		outputTensors[outputName] = outputTensor
 	}
 
